@@ -39,18 +39,22 @@ def main(chk, tier):
 
 
 def dropspy(chk, tier):
-    """Keys dropped the way applications drop them (Box freed) in an LTO + panic=abort build; the freed
-    memory is read back through /proc/self/mem, which the optimiser cannot see. Bytes beyond the first 64
+    """Keys dropped the way applications drop them (Box freed; one drop site per key type per program, so that
+    the drop glue is inlined next to the deallocation) in an LTO + panic=abort build; the freed memory is read back through /proc/self/mem, which the optimiser cannot see. Bytes beyond the first 64
     of a freed block (the allocator's own free-list links) must all be zero."""
     import subprocess
     t0 = time.time()
     binp, _ = chk.cargo_build("dropspy", "release")
     if binp is None:
         chk.die("C16: dropspy build failed")
-    p = subprocess.run([binp], stdout=subprocess.PIPE, stderr=subprocess.STDOUT, text=True, env=chk.ENV)
-    cases = [l.split() for l in p.stdout.splitlines() if l.startswith("CASE ")]
-    if p.returncode != 0 or "DONE" not in p.stdout or len(cases) < 3:
-        chk.die("C16: dropspy did not run to completion:\n" + p.stdout[-1500:])
+    out = run_all(binp, chk)
+    cases = [l.split() for l in out.splitlines() if l.startswith("CASE ")]
+    if len(cases) != 9:
+        chk.die("C16: dropspy did not run to completion:\n" + out[-1500:])
+    for c in cases:
+        kv = dict(x.split("=") for x in c[2:])
+        if int(kv["live_nonzero"]) * 4 < int(kv["size"]):
+            chk.die(f"C16: dropspy case {c[1]} did not hold a live key before the drop")
     bad = []
     sigs = []
     for c in cases:
@@ -86,13 +90,27 @@ def dropspy(chk, tier):
     return rc, part
 
 
-def dropspy_replay(chk, path, body):
+BINS = [t + s for s in ("44", "65", "87") for t in ("sk", "pk", "pair")]
+
+
+def run_all(binp, chk):
+    """one tiny binary per (parameter set, object type): a single drop site per key type per program"""
     import subprocess
+    d = os.path.dirname(binp)
+    out = ""
+    for b in BINS:
+        p = subprocess.run([os.path.join(d, b)], stdout=subprocess.PIPE, stderr=subprocess.STDOUT, text=True, env=chk.ENV)
+        out += p.stdout
+        if p.returncode != 0:
+            out += f"[{b} exited {p.returncode}]\n"
+    return out
+
+
+def dropspy_replay(chk, path, body):
     binp, _ = chk.cargo_build("dropspy", "release")
     if binp is None:
         chk.die("C16 replay: dropspy build failed")
-    p = subprocess.run([binp], stdout=subprocess.PIPE, stderr=subprocess.STDOUT, text=True, env=chk.ENV)
-    for l in p.stdout.splitlines():
+    for l in run_all(binp, chk).splitlines():
         f = l.split()
         if l.startswith("CASE ") and f[1] == body.get("case"):
             kv = dict(x.split("=") for x in f[2:])
